@@ -32,6 +32,7 @@ type ConcScenario struct {
 	Clients   []RawInput `json:"clients"` // Segs / Reply per client
 	Steps     []ConcStep `json:"steps"`
 	Parallel  bool       `json:"parallel"` // datagrams: all clients are handed to the server at once
+	Shared    bool       `json:"shared_port,omitempty"`
 }
 
 type concClient struct {
@@ -122,7 +123,7 @@ func (e *env) runConc(sc ConcScenario) ([]RawObs, []string) {
 		c := &concClient{rd: make(chan struct{})}
 		clients[i] = c
 		if sc.Transport == "tcp" {
-			srv, cc, err := e.tcpPairOn(sc.Svc)
+			srv, cc, err := e.tcpPairOn(sc.Svc, sc.Shared)
 			if err != nil {
 				hx.Fatal("tcp pair: %v", err)
 			}
@@ -149,6 +150,9 @@ func (e *env) runConc(sc ConcScenario) ([]RawObs, []string) {
 			port := 7000
 			if sc.Svc == "dns-proxy" {
 				port = 53
+			}
+			if sc.Shared {
+				port++
 			}
 			raddr := &net.UDPAddr{IP: net.ParseIP("198.51.100.7"), Port: 10000 + int(atomic.AddInt32(&udpSeq, 1))%50000}
 			c.addr = raddr
@@ -466,7 +470,7 @@ func genConcScenarios(o hx.Opts, r *hx.Rand) []ConcScenario {
 				}
 				cl = append(cl, concDNSClient(r, k, true, cm))
 			}
-			out = append(out, ConcScenario{Svc: "dns-proxy", Transport: "tcp", Clients: cl, Steps: concSteps(cl, (cutMode+round)%n)})
+			out = append(out, ConcScenario{Svc: "dns-proxy", Transport: "tcp", Clients: cl, Steps: concSteps(cl, (cutMode+round)%n), Shared: (cutMode+round)%2 == 1})
 		}
 		// dns-proxy datagrams: handed over together (handled by parallel goroutines), and one by one
 		for _, par := range []bool{true, true, false} {
